@@ -20,7 +20,9 @@ pub struct InteractivePrinter<P: Printer> {
   /// Edits already written to a file in this run. One file can arrive in several payloads,
   /// one per document (e.g. html and the js/css embedded in it), all computed against the
   /// same old source: later payloads must keep the edits of the earlier ones.
-  written: HashMap<PathBuf, Vec<InteractiveDiff<()>>>,
+  /// The old source is kept as well: a path that is reached twice (`scan -U dir dir/file`)
+  /// can be read again after it was written, and those edits belong to the new text.
+  written: HashMap<PathBuf, (String, Vec<InteractiveDiff<()>>)>,
 }
 
 impl<P: Printer> InteractivePrinter<P> {
@@ -64,7 +66,8 @@ impl<P: Printer> InteractivePrinter<P> {
       return Ok(());
     }
     // merge with the edits of the documents of this file that were written before
-    if let Some(mut previous) = self.written.remove(path) {
+    let same_source = |(old_source, _): &(String, _)| *old_source == diffs.old_source;
+    if let Some((_, mut previous)) = self.written.remove(path).filter(same_source) {
       previous.append(&mut diffs.contents);
       previous.sort_by_key(|d| d.range.start);
       // edits of different documents can overlap, e.g. an html rule replacing a whole
@@ -91,7 +94,9 @@ impl<P: Printer> InteractivePrinter<P> {
         display: (),
       })
       .collect();
-    self.written.insert(path.clone(), kept);
+    self
+      .written
+      .insert(path.clone(), (diffs.old_source.clone(), kept));
     let new_content = apply_rewrite(diffs);
     std::fs::write(path, new_content).with_context(|| EC::WriteFile(path.clone()))
   }
